@@ -167,7 +167,9 @@ class Ref:
                 return ("mem", base - w)
             a = base + d["disp"]
             if a < 0 or a > PTR_MASK:
-                raise Unjudged("pointer_wrap")
+                # [r3+-n] leaving 0..0xFFFFF: undocumented, but a separate mechanism from a pointer REGISTER stepping over
+                # the edge (both cores form the 24-bit sum here): own tag, so the pointer-step finding does not cover it
+                raise Unjudged("pointer_offset_wrap")
             return ("mem", a)
         if k == "emem_imem":
             p = IMEM + self.imem_off(d["imem"])
@@ -306,7 +308,13 @@ def _step(s: Ref, mn: str, ops: list) -> None:
         def start(d):
             if d["k"] == "emem_reg" and d["mode"] in ("post_inc", "pre_dec"):
                 return None
-            return s.resolve(d, 1)[1]
+            try:
+                return s.resolve(d, 1)[1]
+            except Unjudged as e:
+                if str(e.args[0] if e.args else "") == "pointer_offset_wrap":
+                    # a BLOCK that starts outside the external space: the recorded block case, not the single-access one
+                    raise Unjudged("block_leaves_its_address_space")
+                raise
 
         def ok(a):
             return (IMEM <= a <= IMEM + 0xFF) or (0 <= a <= PTR_MASK)
